@@ -30,7 +30,11 @@ def _cases(draw):
                 settings="some", p_group=0.2, p_repeat=0.15, p_choice_filter=0.2, p_extra_cols=0.4,
                 # extra choices columns named like elements the converter generates itself
                 extra_col_names=["itextId", "itext", "label", "value", "name_", "item", "id"], p_prefixed_names=0.08)
-    return {"form": gen.build_form(draw, prof)}
+    g = gen.G(draw, prof)
+    form = gen.build_form(draw, prof, g=g)
+    if g.p("_", 0.1):
+        gen.respell_language(g, form)
+    return {"form": form}
 
 
 def strategy(tier):
@@ -41,7 +45,7 @@ def check_itext(out: Outcome, v: xform.XFormView, form):
     trans, order = v.translations()
     out.checked("C07.lang-unique")
     langs = [l for l, _ in order]
-    if len(langs) != len(set(langs)):
+    if len(langs) != len({" ".join(l.split()) for l in langs}):      # (header tokens are cleaned: spellings that differ in white space are one language)
         out.fail("C07.lang-unique", "", f"translation languages {langs}")
     out.checked("C07.id-unique")
     for lang, d in trans.items():
